@@ -28,6 +28,9 @@ CONDS = [
     Cond('nth_comment_spelling_ok', 'An+B spellings with comments and mixed whitespace around the sign, keyword case, through '
          'the real compile(): IR (a, b), of_type, last, of-S as the reference says', '29 spellings x 5 names x with/without of S',
          timeout={'quick': 60, 'thorough': 120}),
+    Cond('nth_of_ns_ok', '"of S" with S a namespace test (*, *|*, |*, x|*, a bare type) under 6 prefix maps incl. default entries, on '
+         'XML siblings in three namespaces and none: the counted siblings are exactly those S designates', '5 S x 6 maps x 2 '
+         'directions x 6 An+B', timeout={'quick': 60, 'thorough': 120}),
     Cond('nth_detached_ok', 'parentless element (fake parent): position 1 from either end; a, b unbounded',
          'a, b: all integers', timeout={'quick': 60, 'thorough': 300}, expect_exhaustive=True),
     Cond('nth_parse_ok',
